@@ -3,7 +3,7 @@ from props.common import engine, verify_all, lemmas, assumed_contracts
 
 LEVEL = "proof"
 EXPLANATION = ("Contracts on the real bodies: _determine_license_path (.license shadows the file), Project.reuse_info_of against "
-               "a specification written from the statement (override sandwich; aggregate; closest supplies what the file lacks) "
+               "a specification written from the statement (override: exactly the override, aggregate and closest tables; aggregate adds; closest supplies what the file lacks) "
                "stated pointwise for an arbitrary (value, source, source-type) triple, ReuseTOML.find_annotations_item (last "
                "match wins), ReuseTOML.reuse_info_of (reported under the table's precedence, source REUSE.toml) and "
                "NestedReuseTOML.reuse_info_of (no KeyError/IndexError/ValueError; the CLOSEST clean-up keeps per kind of "
@@ -18,11 +18,75 @@ FUNCTIONS = [
 ]
 
 
+def nested_chains(tier):
+    """chains of nested REUSE.toml files (directory names that sort before / after 'REUSE.toml'), every precedence pair, a file
+    with / without own information: the attribution through the real Project.reuse_info_of against the statement"""
+    import itertools, os, shutil, tempfile
+    from pathlib import Path
+    from pyvc.driver import Bounded, VERIF
+    from reuse.project import Project
+    os.makedirs(os.path.join(VERIF, ".scratch"), exist_ok=True)
+    failures, cases = [], 0
+    dirs = ["src", "Documentation", "3rdparty", "Lib/vendor"] if tier == "thorough" else ["src", "Documentation", "3rdparty"]
+    precs = ["closest", "aggregate", "override"]
+    own_kinds = {"none": "data\n", "both": "SPDX-FileCopyrightText: Own\nSPDX-License-Identifier: ISC\n", "copyright": "SPDX-FileCopyrightText: Own\n"}
+
+    def table(prec, who, lic):
+        return (f'version = 1\n[[annotations]]\npath = "**"\nprecedence = "{prec}"\nSPDX-FileCopyrightText = "{who}"\n'
+                f'SPDX-License-Identifier = "{lic}"\n')
+    for d, p_out, p_in, own in itertools.product(dirs, precs, precs, own_kinds):
+        cases += 1
+        root = tempfile.mkdtemp(dir=os.path.join(VERIF, ".scratch"))
+        try:
+            os.makedirs(os.path.join(root, d))
+            with open(os.path.join(root, "REUSE.toml"), "w") as fp:
+                fp.write(table(p_out, "Outer", "MIT"))
+            with open(os.path.join(root, d, "REUSE.toml"), "w") as fp:
+                fp.write(table(p_in, "Inner", "0BSD"))
+            with open(os.path.join(root, d, "f.txt"), "w") as fp:
+                fp.write(own_kinds[own])
+            infos = Project.from_directory(Path(root)).reuse_info_of(Path(root) / d / "f.txt")
+            got_c = {(l, i.source_path) for i in infos for l in i.copyright_lines}
+            got_l = {(str(e), i.source_path) for i in infos for e in i.spdx_expressions}
+            O, I, F = "REUSE.toml", f"{d}/REUSE.toml", f"{d}/f.txt"
+            own_c = {("SPDX-FileCopyrightText: Own", F)} if own in ("both", "copyright") else set()
+            own_l = {("ISC", F)} if own == "both" else set()
+            want_c, want_l = set(), set()
+            if p_out == "override":                       # the outermost override wins and hides deeper REUSE.toml files
+                want_c, want_l = {("Outer", O)}, {("MIT", O)}
+            else:
+                read_file = p_in != "override"            # an override makes REUSE.toml the only source
+                if read_file:
+                    want_c |= own_c
+                    want_l |= own_l
+                if p_in in ("override", "aggregate"):
+                    want_c.add(("Inner", I)); want_l.add(("0BSD", I))
+                if p_out == "aggregate":
+                    want_c.add(("Outer", O)); want_l.add(("MIT", O))
+                # closest: the nearest REUSE.toml that provides it, for whatever the (read) file lacks
+                has_c = read_file and bool(own_c)
+                has_l = read_file and bool(own_l)
+                nearest = (("Inner", I), ("0BSD", I)) if p_in == "closest" else ((("Outer", O), ("MIT", O)) if p_out == "closest" else None)
+                if nearest is not None:
+                    if not has_c:
+                        want_c.add(nearest[0])
+                    if not has_l:
+                        want_l.add(nearest[1])
+            if (got_c, got_l) != (want_c, want_l):
+                failures.append({"directory": d, "outer": p_out, "inner": p_in, "file_declares": own, "replayed": True,
+                                 "problem": f"attributed {sorted(got_c)} / {sorted(got_l)}, the statement gives {sorted(want_c)} / {sorted(want_l)}"})
+        finally:
+            shutil.rmtree(root, ignore_errors=True)
+    return Bounded("nested-chains", f"{len(dirs)} directory names (sorting before and after 'REUSE.toml') x 3 x 3 precedence pairs of an outer and an "
+                   "inner REUSE.toml x 3 kinds of own information", cases, failures[:10], "real Project.reuse_info_of on real trees")
+
+
 def run(ctx):
     e = engine(ctx, modules=("contracts.report", "contracts.cli", "contracts.project", "contracts.toml"))
     verify_all(ctx, e, FUNCTIONS)
     lemmas(ctx, e, "C04")
     assumed_contracts(ctx, e, "C04")
+    ctx.bounded.append(nested_chains(ctx.tier))
     ctx.assume("what a file itself declares (reuse_info_of_file) is C02's obligation; binary detection (is_binary) is an arbitrary predicate")
     ctx.assume("NestedReuseTOML._find_relevant_tomls_and_items returns the ancestor REUSE.toml files outermost-first with their last "
                "matching table (sorting by directory.parts and pathlib's lexical relations are assumed)")
